@@ -1,7 +1,10 @@
 // Interpreter of plan ops. Every op logs a C(all) record before and an R(eturn) record after, with results.
 #include "s4usim.hpp"
+#include <simgrid/modelchecker.h>
 
 namespace vs {
+// engine D: results of the last completed op of each actor (read by the assert_last op)
+static std::map<std::string, std::string> last_result;
 
 static std::string join(const std::vector<std::string>& a)
 {
@@ -354,6 +357,33 @@ void do_op(Ctx& c, int idx, const Op& op)
     });
   } else if (k == "obs_mq") {
     kvi(r, "size", mqs.at(a[0])->size());
+    // ---------------------------------------------------------------- engine D (model-checker only simcalls)
+  } else if (k == "iprobe") { // MBOX send|recv : is a matching communication of the other kind queued?
+    // the observer reads an SMPI tag through the match data when SMPI is compiled in: give it zeroed storage
+    static char fake_request[4096];
+    auto kind  = (a.size() > 1 && a[1] == "send") ? sg4::Mailbox::IprobeKind::SEND : sg4::Mailbox::IprobeKind::RECV;
+    auto found = mboxes.at(a[0])->iprobe(kind, {}, fake_request);
+    kvi(r, "found", found != nullptr);
+  } else if (k == "mc_random") { // LO HI
+    kvi(r, "value", MC_random(atoi(a[0].c_str()), atoi(a[1].c_str())));
+  } else if (k == "assert_last") { // KEY VALUE : MC_assert(result KEY of the previous op of this actor == VALUE)
+    std::string seen = "-";
+    auto it          = last_result.find(c.aid);
+    if (it != last_result.end()) {
+      std::string pat = " " + a[0] + "=";
+      size_t p        = it->second.find(pat);
+      if (p != std::string::npos) {
+        size_t e = it->second.find(' ', p + pat.size());
+        seen     = it->second.substr(p + pat.size(), e == std::string::npos ? std::string::npos : e - p - pat.size());
+      }
+    }
+    if (seen != a[1]) {
+      kv(r, "fail", "1");
+      kv(r, "seen", seen);
+      emit("R %ld %a %s %d %d %s%s", SEQ++, now(), c.aid.c_str(), c.inc, idx, k.c_str(), r.c_str());
+      mcd_assert_fail(c, idx); // under simgrid-mc this never returns
+      return;
+    }
     // ---------------------------------------------------------------- io
   } else if (k == "io") { // DISK SIZE read|write
     exc = guarded([&] {
@@ -706,6 +736,8 @@ void do_op(Ctx& c, int idx, const Op& op)
     kv(r, "skip", "1");
   if (!exc.empty())
     kv(r, "exc", exc);
+  if (k != "assert_last")
+    last_result[c.aid] = r;
   emit("R %ld %a %s %d %d %s%s", SEQ++, now(), c.aid.c_str(), c.inc, idx, k.c_str(), r.c_str());
 }
 
